@@ -846,7 +846,7 @@ func (i SmallInt) LaxEqual(other Value) bool {
 	case SMALL_INT_FLAG:
 		return i == other.AsSmallInt()
 	case FLOAT_FLAG:
-		return Float(i) == other.AsFloat()
+		return EqInt64Float64(int64(i), float64(other.AsFloat()))
 	case INT64_FLAG:
 		o := other.AsInlineInt64()
 		if o > MaxSmallInt {
@@ -878,9 +878,9 @@ func (i SmallInt) LaxEqual(other Value) bool {
 	case UINT8_FLAG:
 		return i == SmallInt(other.AsUInt8())
 	case FLOAT64_FLAG:
-		return Float64(i) == other.AsInlineFloat64()
+		return EqInt64Float64(int64(i), float64(other.AsInlineFloat64()))
 	case FLOAT32_FLAG:
-		return Float32(i) == other.AsFloat32()
+		return EqInt64Float64(int64(i), float64(other.AsFloat32()))
 	default:
 		return false
 	}
